@@ -65,13 +65,6 @@ Proof.
   destruct (q c1) as [[s2 c2]| |]; try reflexivity. now rewrite app_nil_r.
 Qed.
 
-Definition path_sep_ref (c : cursor) : option (stream * cursor) :=
-  match c with
-  | TPunct c1 true :: TPunct c2 j :: r =>
-      if (c1 =? c_colon) && (c2 =? c_colon) then Some ([TPunct c1 true; TPunct c2 j], r) else None
-  | _ => None
-  end.
-
 Definition punct_ws_ref (p : N) (b : bool) (c : cursor) : option (stream * cursor) :=
   match c with
   | TPunct ch j :: r => if (ch =? p) && Bool.eqb j b then Some ([TPunct ch j], r) else None
@@ -100,13 +93,6 @@ Proof.
     destruct (c2 =? c_colon); reflexivity.
   - destruct c' as [|[x|c2 j2|x|d g] c'']; reflexivity.
 Qed.
-
-Definition arrow_ref (c : cursor) : option (stream * cursor) :=
-  match c with
-  | TPunct c1 true :: TPunct c2 j :: r =>
-      if (c1 =? c_minus) && (c2 =? c_gt) then Some ([TPunct c1 true; TPunct c2 j], r) else None
-  | _ => None
-  end.
 
 Lemma ne_minus : c_minus <> c_apos. Proof. discriminate. Qed.
 Lemma ne_gt0 : c_gt <> c_apos. Proof. discriminate. Qed.
@@ -137,30 +123,6 @@ Proof.
   destruct (N.eqb_spec c2 c_gt) as [->|]; [|discriminate].
   cbn. intros H; inversion H; subst. eauto.
 Qed.
-
-(** the counting loop of balanced_pair for two punctuation characters, by structural recursion on the
-    cursor; returns the consumed prefix.  A `->` is stepped over. *)
-Fixpoint bal (o cl : N) (count : nat) (c : cursor) {struct c} : option (stream * cursor) :=
-  match count with
-  | O => Some ([], c)
-  | S k =>
-      match c with
-      | [] => None
-      | t :: c' =>
-          match (if is_jminus t then match c' with
-                                     | t2 :: c'' => if is_p c_gt t2 then Some (t2, bal o cl count c'') else None
-                                     | [] => None end
-                 else None) with
-          | Some (t2, res) =>
-              match res with Some (s, r) => Some (t :: t2 :: s, r) | None => None end
-          | None =>
-              match bal o cl (if is_p cl t then k else if is_p o t then S count else count) c' with
-              | Some (s, r) => Some (t :: s, r)
-              | None => None
-              end
-          end
-      end
-  end.
 
 Lemma bal_zero o cl c : bal o cl 0 c = Some ([], c).
 Proof. destruct c; reflexivity. Qed.
@@ -226,14 +188,6 @@ Proof.
       inversion H; subst. apply IH in E2; [|lia]. subst. reflexivity.
 Qed.
 
-Definition balanced_pair_ref (o cl : N) (c : cursor) : option (stream * cursor) :=
-  match c with
-  | t :: c' =>
-      if is_p o t then match bal o cl 1 c' with Some (s, r) => Some (t :: s, r) | None => None end
-      else None
-  | [] => None
-  end.
-
 Lemma bp_bridge o cl F c : o <> c_apos -> cl <> c_apos -> (length c <= F)%nat ->
   balanced_pair F (punct o) (punct cl) c = of_opt (balanced_pair_ref o cl c).
 Proof.
@@ -258,23 +212,6 @@ Proof.
   destruct ((c1 =? c_colon) && (c2 =? c_colon)); [|discriminate].
   intros H; inversion H; subst. split; [reflexivity|discriminate].
 Qed.
-
-Definition seq2_ref (p q : cursor -> option (stream * cursor)) (c : cursor) : option (stream * cursor) :=
-  match p c with
-  | Some (s1, c1) => match q c1 with Some (s2, c2) => Some (s1 ++ s2, c2) | None => None end
-  | None => None
-  end.
-
-Definition orelse {A} (a b : option A) : option A := match a with Some x => Some x | None => b end.
-
-Definition token_tree_ref (c : cursor) : option (stream * cursor) :=
-  match c with t :: r => Some ([t], r) | [] => None end.
-
-Definition expr_alt_ref (c : cursor) : option (stream * cursor) :=
-  orelse (seq2_ref path_sep_ref (balanced_pair_ref c_lt c_gt) c)
- (orelse (seq2_ref (balanced_pair_ref c_lt c_gt) path_sep_ref c)
- (orelse (balanced_pair_ref c_bar c_bar c)
-         (token_tree_ref c))).
 
 Lemma ne_lt : c_lt <> c_apos. Proof. discriminate. Qed.
 Lemma ne_gt : c_gt <> c_apos. Proof. discriminate. Qed.
@@ -1364,6 +1301,649 @@ Proof.
   - now apply joined_join_comma_trailing.
 Qed.
 
+(* ================================================================== 5b. characterisation: scanner = grammar-level splitter
+   on every token list without a limit-class step *)
+
+Lemma ea_turbo c x : turbofish_ref c = Some x -> expr_alt_ref c = Some x.
+Proof. unfold expr_alt_ref, turbofish_ref. intros ->. reflexivity. Qed.
+
+Lemma ea_qpath c x : turbofish_ref c = None -> qpath_ref c = Some x -> expr_alt_ref c = Some x.
+Proof. unfold expr_alt_ref, turbofish_ref, qpath_ref. intros -> ->. reflexivity. Qed.
+
+Lemma ea_bars c x : turbofish_ref c = None -> qpath_ref c = None -> bars_ref_ c = Some x -> expr_alt_ref c = Some x.
+Proof. unfold expr_alt_ref, turbofish_ref, qpath_ref, bars_ref_. intros -> -> ->. reflexivity. Qed.
+
+Lemma ea_plain t r : turbofish_ref (t :: r) = None -> qpath_ref (t :: r) = None -> bars_ref_ (t :: r) = None ->
+  expr_alt_ref (t :: r) = Some ([t], r).
+Proof. unfold expr_alt_ref, turbofish_ref, qpath_ref, bars_ref_. intros -> -> ->. reflexivity. Qed.
+
+Lemma qpath_head t r : is_p c_lt t = false -> qpath_ref (t :: r) = None.
+Proof. intros H. unfold qpath_ref, seq2_ref. now rewrite bp_ref_head. Qed.
+
+Lemma bars_head t r : is_p c_bar t = false -> bars_ref_ (t :: r) = None.
+Proof. intros H. unfold bars_ref_. now rewrite bp_ref_head. Qed.
+
+Lemma is_p_excl a b t : is_p a t = true -> a <> b -> is_p b t = false.
+Proof.
+  destruct t as [x|ch j|x|d g]; cbn; try discriminate. intros H Hab.
+  apply N.eqb_eq in H. subst ch. now apply N.eqb_neq.
+Qed.
+
+Lemma type_tok_nobar t : type_tok t = true -> is_p c_bar t = false.
+Proof.
+  destruct t as [x|ch j|x|d g]; cbn; try reflexivity.
+  destruct (N.eqb_spec ch c_bar) as [->|]; [discriminate|reflexivity].
+Qed.
+
+Lemma lt_ne_bar : c_lt <> c_bar. Proof. discriminate. Qed.
+Lemma gt_ne_bar : c_gt <> c_bar. Proof. discriminate. Qed.
+Lemma gt_ne_lt : c_gt <> c_lt. Proof. discriminate. Qed.
+Lemma bar_ne_lt : c_bar <> c_lt. Proof. discriminate. Qed.
+
+Lemma oror_unit j t2 r2 : is_p c_bar t2 = true ->
+  bars_ref_ (TPunct c_bar j :: t2 :: r2) = Some ([TPunct c_bar j; t2], r2).
+Proof.
+  intros H. unfold bars_ref_, balanced_pair_ref. change (is_p c_bar (TPunct c_bar j)) with true. cbn match.
+  rewrite bal_close; [rewrite bal_zero; reflexivity|assumption|].
+  destruct t2 as [x|ch j2|x|d g]; try reflexivity. cbn in H. apply N.eqb_eq in H. subst ch.
+  destruct j2; reflexivity.
+Qed.
+
+Lemma op_agree t r u r' st' : turbofish_ref (t :: r) = None ->
+  operator_step t r = (u, r', st', true) -> expr_alt_ref (t :: r) = Some (u, r').
+Proof.
+  intros Ht. unfold operator_step.
+  destruct (is_p c_lt t) eqn:Elt.
+  - destruct (qpath_ref (t :: r)) eqn:Eq; cbn [is_some negb]; intros H; inversion H; subst.
+    apply ea_plain; auto. apply bars_head. eapply is_p_excl; [eassumption|exact lt_ne_bar].
+  - destruct (is_p c_bar t) eqn:Ebar.
+    + assert (Hq : qpath_ref (t :: r) = None) by (now apply qpath_head).
+      assert (Hplain : ([t], r, POperand, negb (is_some (bars_ref_ (t :: r)))) = (u, r', st', true) ->
+                       expr_alt_ref (t :: r) = Some (u, r')).
+      { destruct (bars_ref_ (t :: r)) eqn:Eb; cbn [is_some negb]; intros H; inversion H; subst.
+        now apply ea_plain. }
+      destruct t as [x|ch j|x|d g]; try discriminate. destruct j.
+      * destruct r as [|t2 r2]; [exact Hplain|].
+        destruct (is_p c_bar t2) eqn:E2; [|exact Hplain].
+        intros H; inversion H; subst. cbn in Ebar. apply N.eqb_eq in Ebar. subst ch.
+        apply ea_bars; auto. now apply oror_unit.
+      * exact Hplain.
+    + intros H; inversion H; subst. apply ea_plain; auto using qpath_head, bars_head.
+Qed.
+
+Lemma step_agree st c u r' st' : spec_step st c = Some (u, r', st', true) -> expr_alt_ref c = Some (u, r').
+Proof.
+  unfold spec_step. destruct c as [|t r]; [discriminate|].
+  destruct (turbofish_ref (t :: r)) as [[u0 r0]|] eqn:Et.
+  - intros H; inversion H; subst. now apply ea_turbo.
+  - destruct (is_type_pos st) eqn:Ety.
+    + destruct (is_p c_lt t) eqn:Elt.
+      * destruct (balanced_pair_ref c_lt c_gt (t :: r)) as [[u1 r1]|] eqn:Eb; [discriminate|].
+        intros H; inversion H; subst. apply ea_plain; auto.
+        -- unfold qpath_ref, seq2_ref. now rewrite Eb.
+        -- apply bars_head. eapply is_p_excl; [eassumption|exact lt_ne_bar].
+      * destruct (match st with PTMinus => is_p c_gt t | _ => false end) eqn:Egt.
+        -- intros H; inversion H; subst. apply ea_plain; auto using qpath_head.
+           apply bars_head. destruct st; try discriminate. eapply is_p_excl; [eassumption|exact gt_ne_bar].
+        -- destruct (type_tok t) eqn:Ett.
+           ++ intros H; inversion H; subst. apply ea_plain; auto using qpath_head, bars_head, type_tok_nobar.
+           ++ intros H; inversion H as [H1]. eapply op_agree; eassumption.
+    + assert (Hop : Some (operator_step t r) = Some (u, r', st', true) -> expr_alt_ref (t :: r) = Some (u, r')).
+      { intros H; inversion H as [H1]. eapply op_agree; eassumption. }
+      assert (Hrest :
+        (if is_p c_lt t
+         then match qpath_ref (t :: r) with Some (u, r') => Some (u, r', POperand, true) | None => Some ([t], r, POperand, true) end
+         else if is_p c_bar t
+              then match bars_ref_ (t :: r) with Some (u, r') => Some (u, r', POperand, true) | None => Some ([t], r, POperand, true) end
+              else match t, balanced_pair_ref c_lt c_gt r with
+                   | TIdent s, Some (u, r') =>
+                       if str_eqb s kw_for then Some (t :: u, r', POperand, false) else Some ([t], r, after_tok t, true)
+                   | _, _ => Some ([t], r, after_tok t, true)
+                   end) = Some (u, r', st', true) -> expr_alt_ref (t :: r) = Some (u, r')).
+      { destruct (is_p c_lt t) eqn:Elt.
+        - destruct (qpath_ref (t :: r)) as [[u1 r1]|] eqn:Eq; intros H; inversion H; subst.
+          + now apply ea_qpath.
+          + apply ea_plain; auto. apply bars_head. eapply is_p_excl; [eassumption|exact lt_ne_bar].
+        - destruct (is_p c_bar t) eqn:Ebar.
+          + destruct (bars_ref_ (t :: r)) as [[u1 r1]|] eqn:Eb; intros H; inversion H; subst.
+            * apply ea_bars; auto using qpath_head.
+            * apply ea_plain; auto using qpath_head.
+          + assert (Hp : Some ([t], r, after_tok t, true) = Some (u, r', st', true) -> expr_alt_ref (t :: r) = Some (u, r')).
+            { intros H; inversion H; subst. apply ea_plain; auto using qpath_head, bars_head. }
+            destruct t as [x|ch j|x|d g]; try exact Hp.
+            destruct (balanced_pair_ref c_lt c_gt r) as [[u1 r1]|]; [|exact Hp].
+            destruct (str_eqb x kw_for); [discriminate|exact Hp]. }
+      assert (Hplain : Some ([t], r, POperand, true) = Some (u, r', st', true) ->
+                       is_p c_lt t = false -> is_p c_bar t = false -> expr_alt_ref (t :: r) = Some (u, r')).
+      { intros H H1 H2; inversion H; subst. apply ea_plain; auto using qpath_head, bars_head. }
+      destruct st; try discriminate Ety; try exact Hop.
+      * (* POperand *) exact Hrest.
+      * (* PMinus *)
+        destruct (is_p c_gt t) eqn:Egt; [|exact Hrest].
+        intros H; inversion H; subst. apply ea_plain; auto.
+        -- apply qpath_head. eapply is_p_excl; [eassumption|exact gt_ne_lt].
+        -- apply bars_head. eapply is_p_excl; [eassumption|exact gt_ne_bar].
+      * (* PHash *)
+        destruct t as [x|ch j|x|d g]; try exact Hrest. intros H. now apply Hplain.
+      * (* PTick *)
+        destruct t as [x|ch j|x|d g]; try exact Hrest. intros H. now apply Hplain.
+Qed.
+
+Lemma spec_step_some st t r : spec_step st (t :: r) <> None.
+Proof.
+  unfold spec_step.
+  destruct (turbofish_ref (t :: r)) as [[u0 r0]|]; [discriminate|].
+  destruct (is_type_pos st).
+  - destruct (is_p c_lt t); [destruct (balanced_pair_ref c_lt c_gt (t :: r)) as [[? ?]|]; discriminate|].
+    destruct (match st with PTMinus => is_p c_gt t | _ => false end); [discriminate|].
+    destruct (type_tok t); discriminate.
+  - assert (Hrest : forall X Y : option (stream * cursor * pos * bool),
+             X <> None -> Y <> None -> forall b : bool, (if b then X else Y) <> None) by (intros X Y ? ? []; assumption).
+    assert (H1 : (if is_p c_lt t
+         then match qpath_ref (t :: r) with Some (u, r') => Some (u, r', POperand, true) | None => Some ([t], r, POperand, true) end
+         else if is_p c_bar t
+              then match bars_ref_ (t :: r) with Some (u, r') => Some (u, r', POperand, true) | None => Some ([t], r, POperand, true) end
+              else match t, balanced_pair_ref c_lt c_gt r with
+                   | TIdent s, Some (u, r') =>
+                       if str_eqb s kw_for then Some (t :: u, r', POperand, false) else Some ([t], r, after_tok t, true)
+                   | _, _ => Some ([t], r, after_tok t, true)
+                   end) <> None).
+    { destruct (is_p c_lt t); [destruct (qpath_ref (t :: r)) as [[? ?]|]; discriminate|].
+      destruct (is_p c_bar t); [destruct (bars_ref_ (t :: r)) as [[? ?]|]; discriminate|].
+      destruct t; try discriminate. destruct (balanced_pair_ref c_lt c_gt r) as [[? ?]|]; [|discriminate].
+      destruct (str_eqb s kw_for); discriminate. }
+    destruct st; try discriminate; try exact H1.
+    + destruct (is_p c_gt t); [discriminate|exact H1].
+    + destruct t; try exact H1; discriminate.
+    + destruct t; try exact H1; discriminate.
+Qed.
+
+Lemma arg_agree F : forall f st out parsed c, (length c < F)%nat ->
+  match spec_arg_loop f st out parsed c with
+  | SOk (s, r) true => take_until1_loop f (expr_alt F) (punct c_comma) out parsed c = Ok (s, r)
+  | SFail true => take_until1_loop f (expr_alt F) (punct c_comma) out parsed c = Fail
+  | _ => True
+  end.
+Proof.
+  induction f as [|f IH]; intros st out parsed c HF; [exact I|].
+  cbn [spec_arg_loop take_until1_loop]. destruct c as [|t r].
+  - cbn [cursor_eof]. destruct parsed; reflexivity.
+  - cbn [cursor_eof]. rewrite (punct_eq _ _ ne_comma). cbn [punct_ref].
+    destruct (is_p c_comma t) eqn:Ec; cbn [of_opt]; [destruct parsed; reflexivity|].
+    destruct (spec_step st (t :: r)) as [[[[u r1] st'] ok]|] eqn:Es; [|now apply spec_step_some in Es].
+    destruct ok.
+    + apply step_agree in Es. rewrite expr_alt_bridge by assumption. rewrite Es. cbn [of_opt].
+      pose proof (expr_alt_ref_lossless _ _ _ Es) as [Hc Hu].
+      assert (Hl : (length r1 < F)%nat).
+      { rewrite Hc, app_length in HF. lia. }
+      specialize (IH st' (out ++ u) true r1 Hl). cbn [andb].
+      destruct (spec_arg_loop f st' (out ++ u) true r1) as [[s r2] [|]|[|]|]; auto.
+    + cbn [andb]. destruct (spec_arg_loop f st' (out ++ u) true r1) as [[s r2] ok2|ok2|]; exact I.
+Qed.
+
+Lemma fast_tu F s r : stop_shape r -> (length (TIdent s :: r) < F)%nat ->
+  take_until1 F (expr_alt F) (punct c_comma) (TIdent s :: r) = Ok ([TIdent s], r).
+Proof.
+  intros Hr HF. unfold take_until1. destruct F as [|[|F]]; [inversion HF|cbn in HF; lia|].
+  assert (He : expr_alt_ref (TIdent s :: r) = Some ([TIdent s], r)).
+  { apply ea_plain; [|now apply qpath_head|now apply bars_head].
+    unfold turbofish_ref, seq2_ref. now rewrite path_sep_ref_head. }
+  rewrite (scan_step (S (S F)) (S F) [] false (TIdent s) r [TIdent s] r HF eq_refl He).
+  cbn [app take_until1_loop]. destruct Hr as [->|(j & r' & ->)]; [reflexivity|].
+  cbn [cursor_eof]. rewrite (punct_eq _ _ ne_comma). reflexivity.
+Qed.
+
+Lemma expr_parse_of_slow F c a r : (length c < F)%nat ->
+  take_until1 F (expr_alt F) (punct c_comma) c = Ok (a, r) -> expr_parse F c = Ok (mk_expr a, r).
+Proof.
+  intros HF Hs. unfold expr_parse.
+  destruct (match cursor_ident c with
+            | Some (s, r0) => if cursor_eof r0 || is_ok (punct c_comma r0) then Some (s, r0) else None
+            | None => None end) as [[s r0]|] eqn:Efast.
+  - destruct c as [|[x|ch j|x|d g] c']; cbn [cursor_ident] in Efast; try discriminate.
+    destruct (cursor_eof c' || is_ok (punct c_comma c')) eqn:Ef; [|discriminate].
+    inversion Efast; subst x c'. apply check_stop_shape in Ef.
+    rewrite (fast_tu F s r0 Ef HF) in Hs. inversion Hs; subst. reflexivity.
+  - rewrite Hs. destruct a as [|t0 a']; [reflexivity|]. destruct t0 as [s0|ch j|x|d g]; try reflexivity.
+    destruct a' as [|t1 a']; [|reflexivity].
+    exfalso. unfold take_until1 in Hs.
+    destruct (tu_spec F F [] false c HF HF) as [(s1 & r1 & E & Hc & _ & Hr)|E]; rewrite E in Hs; [|discriminate].
+    cbn [app] in Hs. inversion Hs; subst s1 r1. subst c. cbn [app cursor_ident] in Efast.
+    rewrite (stop_shape_check _ Hr) in Efast. discriminate.
+Qed.
+
+Lemma expr_parse_of_slow_fail F c : (length c < F)%nat ->
+  take_until1 F (expr_alt F) (punct c_comma) c = Fail -> expr_parse F c = Fail.
+Proof.
+  intros HF Hs. unfold expr_parse.
+  destruct (match cursor_ident c with
+            | Some (s, r0) => if cursor_eof r0 || is_ok (punct c_comma r0) then Some (s, r0) else None
+            | None => None end) as [[s r0]|] eqn:Efast; [|now rewrite Hs].
+  destruct c as [|[x|ch j|x|d g] c']; cbn [cursor_ident] in Efast; try discriminate.
+  destruct (cursor_eof c' || is_ok (punct c_comma c')) eqn:Ef; [|discriminate].
+  apply check_stop_shape in Ef. rewrite (fast_tu F x c' Ef HF) in Hs. discriminate.
+Qed.
+
+Lemma split_agree F : forall f c, (length c < f)%nat -> (length c < F)%nat ->
+  match spec_split_loop f c with
+  | SOk (args, tr) true => parse_terminated_loop f (expr_parse F) c = Ok (List.map mk_expr args, tr)
+  | SFail true => parse_terminated_loop f (expr_parse F) c = Fail
+  | _ => True
+  end.
+Proof.
+  induction f as [|f IH]; intros c Hf HF; [inversion Hf|].
+  cbn [spec_split_loop parse_terminated_loop]. destruct c as [|t c']; [reflexivity|].
+  cbn [cursor_eof].
+  pose proof (arg_agree F (S f) POperand [] false (t :: c') HF) as Ha.
+  destruct (spec_arg_loop (S f) POperand [] false (t :: c')) as [[a c1] ok|ok|]; [| |exact I].
+  - destruct ok.
+    2:{ destruct c1 as [|t1 c1']; [exact I|]. destruct (parse_punct1 c_comma (t1 :: c1')) as [c2|]; [|exact I].
+        cbn [andb]. destruct (spec_split_loop f c2) as [[vs tr] ok2|ok2|]; exact I. }
+    rewrite (tu_fuel_independent F F (S f) F [] false (t :: c')) in Ha by assumption.
+    pose proof Ha as Ha2. unfold take_until1 in *.
+    destruct (tu_spec F F [] false (t :: c') HF HF) as [(s0 & r0 & E & Hc & _ & Hr)|E]; rewrite E in Ha2; [|discriminate].
+    cbn [app] in Ha2. inversion Ha2; subst s0 r0. clear Ha2 E.
+    rewrite (expr_parse_of_slow F (t :: c') a c1 HF Ha).
+    destruct c1 as [|t1 c1']; [reflexivity|]. cbn [cursor_eof].
+    destruct (parse_punct1 c_comma (t1 :: c1')) as [c2|] eqn:Ep; [|reflexivity].
+    apply parse_punct1_inv in Ep as [j Ep]. inversion Ep; subst t1 c1'.
+    assert (Hl : (length c2 < length (t :: c'))%nat).
+    { rewrite Hc, app_length. cbn [length]. lia. }
+    specialize (IH c2 ltac:(lia) ltac:(lia)). cbn [andb].
+    destruct (spec_split_loop f c2) as [[vs tr] [|]|[|]|]; auto.
+    + rewrite IH. destruct vs; reflexivity.
+    + rewrite IH. reflexivity.
+  - destruct ok; [|exact I].
+    rewrite (tu_fuel_independent F F (S f) F [] false (t :: c')) in Ha by assumption.
+    now rewrite (expr_parse_of_slow_fail F (t :: c') HF Ha).
+Qed.
+
+(** the characterisation theorem *)
+Lemma characterisation ts : limit_free ts = true -> split_args ts = spec_result ts.
+Proof.
+  unfold limit_free, spec_result, split_args, split_args_fuel, spec_split. intros H.
+  pose proof (split_agree (S (length ts)) (S (length ts)) ts (Nat.lt_succ_diag_r _) (Nat.lt_succ_diag_r _)) as Ha.
+  destruct (spec_split_loop (S (length ts)) ts) as [[args tr] ok|ok|]; subst; try discriminate; exact Ha.
+Qed.
+
+(* ---- the spec splitter is total *)
+
+Lemma op_lossless t r u r' st' ok : operator_step t r = (u, r', st', ok) -> t :: r = u ++ r' /\ u <> [].
+Proof.
+  unfold operator_step. destruct (is_p c_lt t); [intros H; inversion H; subst; split; [reflexivity|discriminate]|].
+  destruct (is_p c_bar t).
+  - destruct t as [x|ch j|x|d g]; try (intros H; inversion H; subst; split; [reflexivity|discriminate]).
+    destruct j; [|intros H; inversion H; subst; split; [reflexivity|discriminate]].
+    destruct r as [|t2 r2]; [intros H; inversion H; subst; split; [reflexivity|discriminate]|].
+    destruct (is_p c_bar t2); intros H; inversion H; subst; split; try reflexivity; discriminate.
+  - intros H; inversion H; subst; split; [reflexivity|discriminate].
+Qed.
+
+Lemma spec_step_lossless st c u r' st' ok : spec_step st c = Some (u, r', st', ok) -> c = u ++ r' /\ u <> [].
+Proof.
+  destruct ok; [intros H; apply step_agree in H; now apply expr_alt_ref_lossless|].
+  unfold spec_step. destruct c as [|t r]; [discriminate|].
+  destruct (turbofish_ref (t :: r)) as [[u0 r0]|] eqn:Et; [discriminate|].
+  assert (Hop : Some (operator_step t r) = Some (u, r', st', false) -> t :: r = u ++ r' /\ u <> []).
+  { intros H; inversion H as [H1]. eapply op_lossless; eassumption. }
+  destruct (is_type_pos st).
+  - destruct (is_p c_lt t).
+    + destruct (balanced_pair_ref c_lt c_gt (t :: r)) as [[u1 r1]|] eqn:Eb; [|discriminate].
+      intros H; inversion H; subst. now apply bp_ref_lossless in Eb.
+    + destruct (match st with PTMinus => is_p c_gt t | _ => false end); [discriminate|].
+      destruct (type_tok t); [discriminate|exact Hop].
+  - assert (Hrest :
+        (if is_p c_lt t
+         then match qpath_ref (t :: r) with Some (u, r') => Some (u, r', POperand, true) | None => Some ([t], r, POperand, true) end
+         else if is_p c_bar t
+              then match bars_ref_ (t :: r) with Some (u, r') => Some (u, r', POperand, true) | None => Some ([t], r, POperand, true) end
+              else match t, balanced_pair_ref c_lt c_gt r with
+                   | TIdent s, Some (u, r') =>
+                       if str_eqb s kw_for then Some (t :: u, r', POperand, false) else Some ([t], r, after_tok t, true)
+                   | _, _ => Some ([t], r, after_tok t, true)
+                   end) = Some (u, r', st', false) -> t :: r = u ++ r' /\ u <> []).
+    { destruct (is_p c_lt t); [destruct (qpath_ref (t :: r)) as [[? ?]|]; discriminate|].
+      destruct (is_p c_bar t); [destruct (bars_ref_ (t :: r)) as [[? ?]|]; discriminate|].
+      destruct t as [x|ch j|x|d g]; try discriminate.
+      destruct (balanced_pair_ref c_lt c_gt r) as [[u1 r1]|] eqn:Eb; [|discriminate].
+      destruct (str_eqb x kw_for); [|discriminate].
+      intros H; inversion H; subst. apply bp_ref_lossless in Eb as [-> _]. split; [reflexivity|discriminate]. }
+    destruct st; try discriminate; try exact Hop; try exact Hrest.
+    + destruct (is_p c_gt t); [discriminate|exact Hrest].
+    + destruct t; try exact Hrest; discriminate.
+    + destruct t; try exact Hrest; discriminate.
+Qed.
+
+Lemma spec_arg_total : forall f st out parsed c, (length c < f)%nat ->
+  spec_arg_loop f st out parsed c <> SFuel /\
+  forall s r ok, spec_arg_loop f st out parsed c = SOk (s, r) ok ->
+    (length r <= length c)%nat /\ (parsed = false -> (length r < length c)%nat).
+Proof.
+  induction f as [|f IH]; intros st out parsed c Hf; [inversion Hf|].
+  cbn [spec_arg_loop]. destruct c as [|t r0].
+  - destruct parsed; split; try discriminate; intros s r ok H; inversion H; subst; split; [lia|discriminate].
+  - destruct (is_p c_comma t).
+    + destruct parsed; split; try discriminate; intros s r ok H; inversion H; subst; split; [lia|discriminate].
+    + destruct (spec_step st (t :: r0)) as [[[[u r1] st'] ok1]|] eqn:Es; [|split; [discriminate|intros ? ? ? H; discriminate]].
+      apply spec_step_lossless in Es as [Hc Hu].
+      assert (Hl : (length r1 < length (t :: r0))%nat).
+      { rewrite Hc, app_length. destruct u; [congruence|cbn; lia]. }
+      destruct (IH st' (out ++ u) true r1) as [Hnf Hle]; [cbn [length] in *; lia|].
+      destruct (spec_arg_loop f st' (out ++ u) true r1) as [[s2 r2] ok2|ok2|] eqn:Er; [| |congruence].
+      * split; [discriminate|]. intros s r ok H; inversion H; subst.
+        destruct (Hle s r ok2 eq_refl) as [Hle1 _]. split; intros; lia.
+      * split; [discriminate|]. intros ? ? ? H; discriminate.
+Qed.
+
+Lemma spec_split_total : forall f c, (length c < f)%nat -> spec_split_loop f c <> SFuel.
+Proof.
+  induction f as [|f IH]; intros c Hf; [inversion Hf|].
+  cbn [spec_split_loop]. destruct c as [|t c']; [discriminate|].
+  destruct (spec_arg_total (S f) POperand [] false (t :: c') Hf) as [Hnf Hle].
+  destruct (spec_arg_loop (S f) POperand [] false (t :: c')) as [[a c1] ok|ok|]; [|discriminate|congruence].
+  destruct (Hle a c1 ok eq_refl) as [_ Hlt]. specialize (Hlt eq_refl).
+  destruct c1 as [|t1 c1']; [discriminate|].
+  destruct (parse_punct1 c_comma (t1 :: c1')) as [c2|] eqn:Ep; [|discriminate].
+  apply parse_punct1_inv in Ep as [j Ep]. inversion Ep; subst.
+  specialize (IH c2). destruct (spec_split_loop f c2) as [[vs tr] ok2|ok2|]; try discriminate.
+  exfalso. apply IH; [cbn [length] in *; lia|reflexivity].
+Qed.
+
+Lemma spec_total ts : spec_split ts <> SFuel.
+Proof. apply spec_split_total. lia. Qed.
+
+(* ---- statelessness: after the first argument the rest is split as if it were the whole input *)
+
+Lemma split_stateless ts e j l : expr_parse (S (length ts)) ts = Ok (e, TPunct c_comma j :: l) ->
+  split_args ts =
+  match split_args l with
+  | Ok (es, tr) => Ok (e :: es, match es with [] => true | _ => tr end)
+  | Fail => Fail
+  | Fuel => Fuel
+  end.
+Proof.
+  intros H. unfold split_args, split_args_fuel.
+  set (F := S (length ts)) in *.
+  assert (HF : (length ts < F)%nat) by (unfold F; lia).
+  destruct (expr_parse_spec F ts HF) as [(e' & r & E & Hc & _)|E]; rewrite E in H; [|discriminate].
+  inversion H; subst e' r. clear H.
+  assert (Hl : (length l < length ts)%nat).
+  { rewrite Hc, app_length. cbn [length]. lia. }
+  destruct ts as [|t ts']; [cbn [length] in Hl; lia|].
+  unfold F at 1. cbn [parse_terminated_loop cursor_eof]. fold F. rewrite E. cbn [cursor_eof].
+  change (parse_punct1 c_comma (TPunct c_comma j :: l)) with (Some l). cbv iota.
+  rewrite (pt_fuel_independent (expr_parse F) (expr_parse (S (length l))) (fun e src => src = expr_to_tokens e)
+             (S (length l))) with (f2 := S (length l)); try lia.
+  all: try reflexivity.
+  all: try (intros c0 H0; apply expr_parse_src_spec; unfold F; cbn [length] in *; lia).
+  all: try (intros c0 H0; apply expr_parse_fuel_independent; [unfold F; cbn [length] in *; lia|assumption]).
+  all: try (cbn [length] in *; lia).
+Qed.
+
+(* ---- the `name =` decision *)
+
+Lemma alias_condition c :
+  peek_ident c && peek2_eq c && negb (peek2_punct2 c_eq c_eq c) && negb (peek2_punct2 c_eq c_gt c)
+  = match alias_shape c with Some _ => true | None => false end.
+Proof.
+  unfold alias_shape. destruct c as [|[s|ch j|x|d g] c1]; try reflexivity.
+  unfold peek_ident. cbn [cursor_ident].
+  destruct c1 as [|[x|ch j|x|d g] c2]; try (destruct (accept_as_ident s); reflexivity).
+  unfold peek2_eq, peek2_punct2. cbn [cursor_skip].
+  destruct (N.eqb_spec ch c_eq) as [->|Hne].
+  - rewrite !peek_punct2_eq by discriminate. unfold peek_punct1, cursor_punct.
+    change (c_eq =? c_apos) with false. change (c_eq =? c_eq) with true.
+    unfold glued. destruct (accept_as_ident s); cbn [andb]; [|reflexivity].
+    destruct j; cbn [andb negb]; [|reflexivity].
+    destruct (head_punct c_eq c2), (head_punct c_gt c2); reflexivity.
+  - unfold peek_punct1, cursor_punct. rewrite !andb_false_r.
+    destruct (ch =? c_apos); [now rewrite !andb_false_r|].
+    apply N.eqb_neq in Hne. rewrite Hne. now rewrite !andb_false_r.
+Qed.
+
+Lemma alias_decision F c a r : fmt_argument_parse F c = Ok (a, r) -> fa_alias a = alias_shape c.
+Proof.
+  unfold fmt_argument_parse. rewrite alias_condition.
+  destruct (alias_shape c) as [s|] eqn:Ea.
+  - unfold alias_shape in Ea. destruct c as [|[s0|ch0 j0|x0|d0 g0] [|[x|ch j|x|d g] c2]]; try discriminate.
+    destruct (accept_as_ident s0) eqn:Eacc; [|discriminate]. cbn [andb] in Ea.
+    destruct ((ch =? c_eq) && negb (glued j c2)); [|discriminate]. inversion Ea; subst s0.
+    unfold parse_ident. cbn [cursor_ident]. rewrite Eacc.
+    destruct (parse_punct1 c_eq (TPunct ch j :: c2)) as [c3|]; [|discriminate].
+    destruct (expr_parse F c3) as [[e r0]| |]; try discriminate. intros H; inversion H; reflexivity.
+  - destruct (expr_parse F c) as [[e r0]| |]; try discriminate. intros H; inversion H; reflexivity.
+Qed.
+
+(* ---- which argument an index / a name denotes *)
+
+Lemma index_denotes_slice ts a : parse_attr ts = Ok a ->
+  exists (j0 cm : bool) srcs tr l,
+    ts = TLit (at_lit a) :: (if cm then [TPunct c_comma j0] else []) ++ l /\ joined srcs tr l
+    /\ length srcs = length (p_items (at_args a))
+    /\ forall i x, arg_by_index a i = Some x -> exists src, nth_error srcs i = Some src /\ arg_src x src.
+Proof.
+  intros H. destruct (attr_args_verbatim ts a H) as (j0 & cm & srcs & tr & l & Hts & Hj & HF & _).
+  exists j0, cm, srcs, tr, l. repeat split; auto.
+  - clear - HF. induction HF; cbn; congruence.
+  - unfold arg_by_index. clear - HF. induction HF as [|x y xs ys Hx _ IH]; intros i z Hi.
+    + destruct i; discriminate.
+    + destruct i as [|i]; cbn in Hi |- *; [inversion Hi; subst; eauto|eauto].
+Qed.
+
+Lemma find_alias_spec n items : forall k,
+  match find_alias n items k with
+  | Some i => exists x, nth_error items (i - k) = Some x /\ (k <= i)%nat
+                         /\ List.find (fun x => match fa_alias x with Some al => str_eqb al n | None => false end) items = Some x
+  | None => List.find (fun x => match fa_alias x with Some al => str_eqb al n | None => false end) items = None
+  end.
+Proof.
+  induction items as [|x rest IH]; intros k; cbn [find_alias List.find]; [reflexivity|].
+  destruct (fa_alias x) as [al|].
+  - destruct (str_eqb al n).
+    + exists x. rewrite Nat.sub_diag. repeat split; auto.
+    + specialize (IH (S k)). destruct (find_alias n rest (S k)) as [i|]; [|exact IH].
+      destruct IH as (y & Hn & Hk & Hf). exists y. repeat split; auto; [|lia].
+      replace (i - k)%nat with (S (i - S k)) by lia. exact Hn.
+  - specialize (IH (S k)). destruct (find_alias n rest (S k)) as [i|]; [|exact IH].
+    destruct IH as (y & Hn & Hk & Hf). exists y. repeat split; auto; [|lia].
+    replace (i - k)%nat with (S (i - S k)) by lia. exact Hn.
+Qed.
+
+(** the derive's lookups are format_args!'s rule *)
+Lemma lookup_is_denoted a : 
+  (forall i, fa_denotes (PhIndex i) (p_items (at_args a)) = DArg i <-> arg_by_index a i <> None) /\
+  (forall n, match fa_denotes (PhName n) (p_items (at_args a)) with
+             | DArg i => arg_by_name a n = arg_by_index a i /\ arg_by_name a n <> None
+             | DCapture m => m = n /\ arg_by_name a n = None
+             | DInvalid => False
+             end).
+Proof.
+  split.
+  - intros i. unfold fa_denotes, arg_by_index. destruct (Nat.ltb_spec i (length (p_items (at_args a)))) as [Hlt|Hge].
+    + split; [intros _|reflexivity]. now apply nth_error_Some.
+    + split; [discriminate|]. intros H. apply nth_error_Some in H. lia.
+  - intros n. unfold fa_denotes, arg_by_name, arg_by_index.
+    pose proof (find_alias_spec n (p_items (at_args a)) 0) as H.
+    destruct (find_alias n (p_items (at_args a)) 0) as [i|].
+    + destruct H as (x & Hn & _ & Hf). rewrite Nat.sub_0_r in Hn. rewrite Hf, Hn. split; [reflexivity|discriminate].
+    + split; [reflexivity|exact H].
+Qed.
+
+Ltac pd := repeat match goal with
+  | H : _ \/ _ |- _ => destruct H
+  | H : exists _, _ |- _ => destruct H
+  | H : _ /\ _ |- _ => destruct H
+  | H : Some _ = Some _ |- _ => inversion H; clear H; subst
+  | H : _ :: _ = _ :: _ |- _ => inversion H; clear H; subst
+  | H : PhName _ = PhName _ |- _ => inversion H; clear H; subst
+  end; try discriminate; try congruence.
+
+(** pass-through selects exactly the argument format_args! would format, and only when it is the sole one *)
+Lemma passthrough_denotes ph a e : transparent_expr ph a = Some e <->
+  (exists x, p_items (at_args a) = [x] /\ fa_denotes ph [x] = DArg 0 /\ e = fa_expr x)
+  \/ (exists n, p_items (at_args a) = [] /\ ph = PhName n /\ e = EIdent n).
+Proof.
+  unfold transparent_expr. destruct (p_items (at_args a)) as [|x [|y rest]].
+  - destruct ph as [|[|i]|n]; split; intros H0; pd;
+      try solve [right; eexists; auto | reflexivity].
+  - destruct ph as [|[|i]|n]; unfold fa_denotes; cbn [find_alias length Nat.ltb Nat.leb];
+      try (destruct (fa_alias x) as [al|] eqn:Eal; [destruct (str_eqb al n) eqn:E|]);
+      split; intros H0; pd;
+      try solve [left; exists x; rewrite ?Eal, ?E; auto | reflexivity
+                | rewrite ?Eal, ?E in *; discriminate].
+  - destruct ph as [|[|i]|n]; split; intros H0; pd.
+Qed.
+
+(* ---- a trailing comma changes nothing but the flag *)
+
+Definition snoc_res (x : tt) (o : option (stream * cursor)) : option (stream * cursor) :=
+  match o with Some (s, r) => Some (s, r ++ [x]) | None => None end.
+
+Lemma arrow_ref_snoc j c : arrow_ref (c ++ [TPunct c_comma j]) = snoc_res (TPunct c_comma j) (arrow_ref c).
+Proof.
+  destruct c as [|t [|t2 c']].
+  - destruct j; reflexivity.
+  - destruct t as [x|c1 [] |x|d g]; try reflexivity. cbn. now rewrite andb_false_r.
+  - destruct t as [x|c1 [] |x|d g]; try reflexivity. destruct t2 as [x|c2 j2|x|d g]; try reflexivity.
+    cbn. destruct ((c1 =? c_minus) && (c2 =? c_gt)); reflexivity.
+Qed.
+
+Lemma path_sep_ref_snoc j c : path_sep_ref (c ++ [TPunct c_comma j]) = snoc_res (TPunct c_comma j) (path_sep_ref c).
+Proof.
+  destruct c as [|t [|t2 c']].
+  - destruct j; reflexivity.
+  - destruct t as [x|c1 [] |x|d g]; try reflexivity. cbn. now rewrite andb_false_r.
+  - destruct t as [x|c1 [] |x|d g]; try reflexivity. destruct t2 as [x|c2 j2|x|d g]; try reflexivity.
+    cbn. destruct ((c1 =? c_colon) && (c2 =? c_colon)); reflexivity.
+Qed.
+
+Lemma bal_snoc o cl j : o <> c_comma -> cl <> c_comma -> forall n c, (length c <= n)%nat -> forall k,
+  bal o cl (S k) (c ++ [TPunct c_comma j]) = snoc_res (TPunct c_comma j) (bal o cl (S k) c).
+Proof.
+  intros Ho Hcl. induction n as [|n IH]; intros c Hn k.
+  - destruct c; [|inversion Hn]. cbn [app]. rewrite bal_noarrow by (destruct j; reflexivity).
+    assert (H1 : is_p cl (TPunct c_comma j) = false) by (unfold is_p; apply N.eqb_neq; intros E; apply Hcl; now rewrite E).
+    assert (H2 : is_p o (TPunct c_comma j) = false) by (unfold is_p; apply N.eqb_neq; intros E; apply Ho; now rewrite E).
+    rewrite H1, H2. reflexivity.
+  - destruct c as [|t c']; [apply (IH [] (Nat.le_0_l _))|]. cbn [length] in Hn.
+    destruct (arrow_ref (t :: c')) as [[s1 c1]|] eqn:Ea.
+    + apply arrow_ref_inv in Ea as (j2 & E & ->). inversion E; subst t c'. cbn [app]. rewrite !bal_arrow.
+      cbn [length] in Hn. rewrite IH by lia. destruct (bal o cl (S k) c1) as [[s r]|]; reflexivity.
+    + assert (Ea2 : arrow_ref ((t :: c') ++ [TPunct c_comma j]) = None) by (rewrite arrow_ref_snoc, Ea; reflexivity).
+      cbn [app] in Ea2 |- *. rewrite (bal_noarrow _ _ _ _ _ Ea), (bal_noarrow _ _ _ _ _ Ea2).
+      destruct (is_p cl t).
+      * destruct k as [|k]; [rewrite !bal_zero; reflexivity|].
+        rewrite IH by lia. destruct (bal o cl (S k) c') as [[s r]|]; reflexivity.
+      * destruct (is_p o t); rewrite IH by lia; [destruct (bal o cl (S (S k)) c') as [[s r]|]|destruct (bal o cl (S k) c') as [[s r]|]]; reflexivity.
+Qed.
+
+Lemma bp_ref_snoc o cl j c : o <> c_comma -> cl <> c_comma ->
+  balanced_pair_ref o cl (c ++ [TPunct c_comma j]) = snoc_res (TPunct c_comma j) (balanced_pair_ref o cl c).
+Proof.
+  intros Ho Hcl. destruct c as [|t c'].
+  - cbn [app balanced_pair_ref snoc_res]. unfold is_p.
+    assert (E : (c_comma =? o) = false) by (apply N.eqb_neq; intros E; apply Ho; now rewrite E). now rewrite E.
+  - cbn [app balanced_pair_ref]. destruct (is_p o t); [|reflexivity].
+    rewrite (bal_snoc o cl j Ho Hcl (length c') c' (le_n _)). destruct (bal o cl 1 c') as [[s r]|]; reflexivity.
+Qed.
+
+Lemma seq2_ref_snoc p q x : (forall c, p (c ++ [x]) = snoc_res x (p c)) -> (forall c, q (c ++ [x]) = snoc_res x (q c)) ->
+  forall c, seq2_ref p q (c ++ [x]) = snoc_res x (seq2_ref p q c).
+Proof.
+  intros Hp Hq c. unfold seq2_ref. rewrite Hp. destruct (p c) as [[s1 c1]|]; [|reflexivity]. cbn [snoc_res].
+  rewrite Hq. destruct (q c1) as [[s2 c2]|]; reflexivity.
+Qed.
+
+Lemma lt_ne_comma : c_lt <> c_comma. Proof. discriminate. Qed.
+Lemma gt_ne_comma : c_gt <> c_comma. Proof. discriminate. Qed.
+Lemma bar_ne_comma : c_bar <> c_comma. Proof. discriminate. Qed.
+
+Lemma expr_alt_ref_snoc j c : c <> [] ->
+  expr_alt_ref (c ++ [TPunct c_comma j]) = snoc_res (TPunct c_comma j) (expr_alt_ref c).
+Proof.
+  intros Hc. unfold expr_alt_ref.
+  rewrite (seq2_ref_snoc path_sep_ref (balanced_pair_ref c_lt c_gt) _ (path_sep_ref_snoc j)
+             (fun c => bp_ref_snoc c_lt c_gt j c lt_ne_comma gt_ne_comma)).
+  destruct (seq2_ref path_sep_ref (balanced_pair_ref c_lt c_gt) c) as [[s r]|]; [reflexivity|]. cbn [snoc_res orelse].
+  rewrite (seq2_ref_snoc (balanced_pair_ref c_lt c_gt) path_sep_ref _
+             (fun c => bp_ref_snoc c_lt c_gt j c lt_ne_comma gt_ne_comma) (path_sep_ref_snoc j)).
+  destruct (seq2_ref (balanced_pair_ref c_lt c_gt) path_sep_ref c) as [[s r]|]; [reflexivity|]. cbn [snoc_res orelse].
+  rewrite (bp_ref_snoc c_bar c_bar j c bar_ne_comma bar_ne_comma).
+  destruct (balanced_pair_ref c_bar c_bar c) as [[s r]|]; [reflexivity|]. cbn [snoc_res orelse].
+  destruct c; [congruence|reflexivity].
+Qed.
+
+Definition snoc_out {A} (x : tt) (o : outcome (A * cursor)) : outcome (A * cursor) :=
+  match o with Ok (s, r) => Ok (s, r ++ [x]) | Fail => Fail | Fuel => Fuel end.
+
+Lemma tu_snoc F j : forall f out parsed c, (S (length c) < f)%nat -> (S (length c) < F)%nat ->
+  take_until1_loop f (expr_alt F) (punct c_comma) out parsed (c ++ [TPunct c_comma j])
+  = snoc_out (TPunct c_comma j) (take_until1_loop f (expr_alt F) (punct c_comma) out parsed c).
+Proof.
+  induction f as [|f IH]; intros out parsed c Hf HF; [inversion Hf|].
+  cbn [take_until1_loop]. destruct c as [|t c'].
+  - cbn [app cursor_eof]. rewrite (punct_eq _ _ ne_comma). cbn. destruct parsed; reflexivity.
+  - cbn [app cursor_eof]. rewrite !(punct_eq _ _ ne_comma). cbn [punct_ref].
+    destruct (is_p c_comma t); cbn [of_opt]; [destruct parsed; reflexivity|].
+    rewrite !expr_alt_bridge by (cbn [length] in *; rewrite ?app_length; cbn [length]; lia).
+    change (t :: c' ++ [TPunct c_comma j]) with ((t :: c') ++ [TPunct c_comma j]).
+    rewrite expr_alt_ref_snoc by discriminate.
+    destruct (expr_alt_ref (t :: c')) as [[s1 c1]|] eqn:Ea; cbn [snoc_res of_opt]; [|reflexivity].
+    apply expr_alt_ref_lossless in Ea as [Hc Hs].
+    assert (Hl : (length c1 < length (t :: c'))%nat).
+    { rewrite Hc, app_length. destruct s1; [congruence|cbn; lia]. }
+    apply IH; cbn [length] in *; lia.
+Qed.
+
+Lemma expr_parse_snoc F j c : (S (length c) < F)%nat ->
+  expr_parse F (c ++ [TPunct c_comma j]) = snoc_out (TPunct c_comma j) (expr_parse F c).
+Proof.
+  intros HF. unfold expr_parse, take_until1. rewrite tu_snoc by assumption.
+  destruct c as [|[s|ch j0|x|d g] c']; cbn [app cursor_ident];
+    try (destruct (take_until1_loop F (expr_alt F) (punct c_comma) [] false _) as [[s0 r0]| |]; reflexivity).
+  assert (E : cursor_eof (c' ++ [TPunct c_comma j]) || is_ok (punct c_comma (c' ++ [TPunct c_comma j]))
+              = cursor_eof c' || is_ok (punct c_comma c')).
+  { destruct c' as [|t1 c'']; [reflexivity|]. cbn [app cursor_eof orb].
+    rewrite !(punct_eq _ _ ne_comma). cbn [punct_ref]. destruct (is_p c_comma t1); reflexivity. }
+  rewrite E. destruct (cursor_eof c' || is_ok (punct c_comma c')); [reflexivity|].
+  destruct (take_until1_loop F (expr_alt F) (punct c_comma) [] false (TIdent s :: c')) as [[s0 r0]| |]; reflexivity.
+Qed.
+
+Lemma pt_snoc F j : forall f c es, (S (length c) < f)%nat -> (S (length c) < F)%nat ->
+  parse_terminated_loop f (expr_parse F) c = Ok (es, false) -> es <> [] ->
+  parse_terminated_loop f (expr_parse F) (c ++ [TPunct c_comma j]) = Ok (es, true).
+Proof.
+  induction f as [|f IH]; intros c es Hf HF H Hne; [inversion Hf|].
+  cbn [parse_terminated_loop] in H |- *. destruct c as [|t c'].
+  - cbn [cursor_eof] in H. inversion H; subst. congruence.
+  - cbn [cursor_eof app] in H |- *.
+    change (t :: c' ++ [TPunct c_comma j]) with ((t :: c') ++ [TPunct c_comma j]).
+    rewrite expr_parse_snoc by assumption.
+    destruct (expr_parse_spec F (t :: c')) as [(e & r & E & Hc & _)|E]; [lia| |]; rewrite E in H |- *; [|discriminate].
+    cbn [snoc_out]. destruct r as [|t1 r1].
+    + cbn [cursor_eof] in H. inversion H; subst. cbn [app cursor_eof].
+      change (parse_punct1 c_comma [TPunct c_comma j]) with (Some (@nil tt)). cbv iota.
+      destruct f; [cbn [length] in Hf; lia|]. reflexivity.
+    + cbn [cursor_eof app] in H |- *.
+      destruct (parse_punct1 c_comma (t1 :: r1)) as [c2|] eqn:Ep; [|discriminate].
+      pose proof Ep as Ep2. apply parse_punct1_inv in Ep2 as [j2 Ep2]. inversion Ep2; subst t1 r1.
+      change (parse_punct1 c_comma (TPunct c_comma j2 :: c2 ++ [TPunct c_comma j])) with (Some (c2 ++ [TPunct c_comma j])).
+      cbv iota.
+      assert (Hl : (length c2 < length (t :: c'))%nat).
+      { rewrite Hc, app_length. cbn [length]. lia. }
+      destruct (parse_terminated_loop f (expr_parse F) c2) as [[vs tr]| |] eqn:E2; try discriminate.
+      inversion H; subst es. destruct vs as [|v vs]; [discriminate|]. subst tr.
+      rewrite (IH c2 (v :: vs)); auto; try (cbn [length] in *; lia). discriminate.
+Qed.
+
+Lemma trailing_comma ts es j : split_args ts = Ok (es, false) -> es <> [] ->
+  split_args (ts ++ [TPunct c_comma j]) = Ok (es, true).
+Proof.
+  unfold split_args. intros H Hne. rewrite app_length. cbn [length].
+  rewrite (split_fuel_independent (S (length ts)) (S (length ts + 1)) ts) in H by lia.
+  unfold split_args_fuel in *. apply pt_snoc; auto; lia.
+Qed.
+
 (* ================================================================== 6. witnesses: hypotheses are satisfiable, excluded shapes are mis-split *)
 
 From Coq Require Import String.
@@ -1480,3 +2060,37 @@ Proof. eexists. split; [vm_compute; reflexivity|]. split; reflexivity. Qed.
 Lemma lone_literal_comma :
   exists a, parse_attr [TLit (s2l """"""); pa c_comma] = Ok a /\ fmt_attribute_to_tokens a = [TLit (s2l """""")].
 Proof. eexists. split; [vm_compute; reflexivity|reflexivity]. Qed.
+
+(* ---- the characterisation at work *)
+
+(* x < y, <A as T<B, C>>::X, |p, q| p, f::<A, B>(), a | 1   — no limit-class step; five arguments *)
+Definition ex_free : list tt :=
+  [id_ "x"; pa c_lt; id_ "y"; pa c_comma;
+   pa c_lt; id_ "A"; id_ "as"; id_ "T"; pa c_lt; id_ "B"; pa c_comma; id_ "C"; pj c_gt; pj c_gt; pj c_colon; pa c_colon; id_ "X"; pa c_comma;
+   pa c_bar; id_ "p"; pa c_comma; id_ "q"; pa c_bar; id_ "p"; pa c_comma;
+   id_ "f"; pj c_colon; pj c_colon; pa c_lt; id_ "A"; pa c_comma; id_ "B"; pa c_gt; TGroup Paren []; pa c_comma;
+   id_ "a"; pa c_bar; num "1"].
+
+Example limit_free_example :
+  limit_free ex_free = true /\ exists args, spec_split ex_free = SOk (args, false) true /\ List.length args = 5%nat.
+Proof. split; [vm_compute; reflexivity|]. eexists. split; [vm_compute; reflexivity|reflexivity]. Qed.
+
+Example characterisation_example : exists es, split_args ex_free = Ok (es, false) /\ List.length es = 5%nat.
+Proof.
+  rewrite (characterisation ex_free (proj1 limit_free_example)).
+  eexists. split; [vm_compute; reflexivity|reflexivity].
+Qed.
+
+(* the recorded design limits are exactly where [limit_free] is false, and there the grammar-level splitter still
+   gives Rust's answer:  a | 1, b | 2, c  (3)   x as M<K, V>, y  (2)   a < b, c > ::d  (2)   |x| -> M<K, V> { x }  (1) *)
+Example limit_classes_flagged :
+  let bitor := join_comma [[id_ "a"; pa c_bar; num "1"]; [id_ "b"; pa c_bar; num "2"]; [id_ "c"]] in
+  let cast := join_comma [[id_ "x"; id_ "as"; id_ "M"; pa c_lt; id_ "K"; pa c_comma; id_ "V"; pa c_gt]; [id_ "y"]] in
+  let ltgt := join_comma [[id_ "a"; pa c_lt; id_ "b"]; [id_ "c"; pa c_gt; pj c_colon; pa c_colon; id_ "d"]] in
+  let clos := [pa c_bar; id_ "x"; pa c_bar; pj c_minus; pa c_gt; id_ "M"; pa c_lt; id_ "K"; pa c_comma; id_ "V"; pa c_gt;
+               TGroup Brace [id_ "x"]] in
+  (limit_free bitor = false /\ view_spec bitor = SOk ([3; 3; 1]%nat, false) false)
+  /\ (limit_free cast = false /\ view_spec cast = SOk ([8; 1]%nat, false) false)
+  /\ (limit_free ltgt = false /\ view_spec ltgt = SOk ([3; 5]%nat, false) false)
+  /\ (limit_free clos = false /\ view_spec clos = SOk ([12]%nat, false) false).
+Proof. vm_compute. repeat split. Qed.
